@@ -398,13 +398,20 @@ func genItem(t *Tape) Item {
 		it.Inputs = append(it.Inputs, ProgInput{Name: "in2.json", Data: QBytes(doc())})
 	}
 	k1, k2 := histKeys[t.Draw(len(histKeys))], histKeys[t.Draw(len(histKeys))]
-	switch t.Weighted(5, 5, 3, 3, 3, 2, 2, 2, 2, 2, 2, 1, 1, 4, 2, 3, 2, 4, 3, 3, 5, 3, 4) {
+	switch t.Weighted(5, 5, 3, 3, 3, 2, 2, 2, 2, 2, 2, 1, 1, 4, 2, 3, 2, 4, 3, 3, 5, 3, 4, 3) {
 	case 13:
 		// regular expressions: literal and string forms, patterns that share
 		// prefixes and lengths (a process-level cache keyed too coarsely shows here)
 		pats := []string{"^al", "^alp", "^alpha$", "a$", "a$|u$", "eta", "eta$", "^(be|ga)", "^(be|ga|de)", "^.a", "^.e", "^...$", "^....$", "[aeiou]{2}", "[aeiou]t", "^[a-m]", "^[n-z]", "mu|nu", "mu|xi"}
 		p1, p2 := pats[t.Draw(len(pats))], pats[t.Draw(len(pats))]
 		it.Prog = fmt.Sprintf("{ for (k, v in $) { if (k ~ /%s/) { print \"m1\", k }\n if (k !~ \"%s\") { print \"n2\", k } } }", p1, p2)
+	case 23:
+		// values that cannot be serialised for more than one reason at once: the reported reason is part of the outcome
+		it.Prog = []string{
+			"BEGIN { o = {}\n o.alpha = o\n o.beta = /x/\n o.gamma = 1\n print json(o) }",
+			"{ $.zz = /re/\n $.aa = $\n $.mm = [/q/] }",
+			"BEGIN { o = {}\n o.b = [o]\n o.a = {r: /x/}\n o.c = o\n print json([o]) }",
+		}[t.Draw(3)]
 	case 21:
 		// pattern forms that are errors today must be the same error every time
 		it.Inputs = []ProgInput{{Name: "in.json", Data: QBytes(`{"alpha": 1, "beta": 2, "gamma": 3} {"alpha": [1], "beta": 2} {"alpha": 1, "beta": {"x": 1, "y": [1]}}`)}}
